@@ -146,7 +146,7 @@ func (obj *Package) Use(pkg *Package) {
 			obj.vars = map[string]*VarVal{}
 		}
 		for name, vv := range pkg.vars {
-			if vv.Export {
+			if _, has := obj.vars[name]; !has && vv.Export {
 				obj.vars[name] = vv
 			}
 		}
@@ -154,7 +154,7 @@ func (obj *Package) Use(pkg *Package) {
 			obj.funcs = map[string]*FuncInfo{}
 		}
 		for name, fi := range pkg.funcs {
-			if fi.Export {
+			if _, has := obj.funcs[name]; !has && fi.Export {
 				obj.funcs[name] = fi
 			}
 		}
